@@ -145,3 +145,95 @@ Ltac srcT_case :=
 
 Ltac srcT_auto :=
   srcT_unfold_ops; srcT_norm; repeat (try src_match_args; srcT_case; srcT_norm); src_close.
+
+(* ---- robust case analysis: proofs that do not depend on the shape of the translated text ----
+   src_robust: unfold the checked operators, orient every comparison the same way, make the arguments of the checked
+   operations on both sides syntactically equal where they are equal as integers, split every checked operation into
+   "fits" / "overflows" (with the range fact), split every `if`, and close the leaves by linear arithmetic
+   (contradictory branches included).  A commuted operand, a flipped comparison, an extra `let`, `return` versus a
+   trailing expression or a literal instead of a named constant leave such a proof valid. *)
+Lemma chk32_dec m z :
+  (in_i32 z = true /\ chk32 m z = Ok z) \/
+  (in_i32 z = false /\ chk32 m z = match m with Debug => Panic | Release => Ok (wrap32 z) end).
+Proof. unfold chk32. destruct (in_i32 z); [left|right]; split; reflexivity. Qed.
+Lemma chk64_dec m z :
+  (in_i64 z = true /\ chk64 m z = Ok z) \/
+  (in_i64 z = false /\ chk64 m z = match m with Debug => Panic | Release => Ok (wrap64 z) end).
+Proof. unfold chk64. destruct (in_i64 z); [left|right]; split; reflexivity. Qed.
+Lemma chkT_dec m t z :
+  (inT t z = true /\ chkT m t z = Ok z) \/
+  (inT t z = false /\ chkT m t z = match m with Debug => Panic | Release => Ok (wrapT t z) end).
+Proof. unfold chkT. destruct (inT t z); [left|right]; split; reflexivity. Qed.
+
+Ltac cmp_norm := rewrite ?Z.gtb_ltb, ?Z.geb_leb in *.
+
+Ltac src_lia :=
+  unfold inT, in_i32, in_i64, in_u64, two31, two32, two63, two64 in *; cbn [loT hiT signedT bitsT] in *; lia.
+
+(* the argument of a checked operation that occurs twice in two spellings: one spelling *)
+Ltac unify_chk :=
+  match goal with
+  | |- context [chk32 ?m ?z1] =>
+      match goal with |- context [chk32 m ?z2] => tryif constr_eq z1 z2 then fail else (replace z2 with z1 by lia) end
+  | |- context [chk64 ?m ?z1] =>
+      match goal with |- context [chk64 m ?z2] => tryif constr_eq z1 z2 then fail else (replace z2 with z1 by lia) end
+  | |- context [chkT ?m ?t ?z1] =>
+      match goal with |- context [chkT m t ?z2] => tryif constr_eq z1 z2 then fail else (replace z2 with z1 by lia) end
+  end.
+
+Ltac split_mode m := first [ is_var m; destruct m | idtac ].
+
+Ltac split_chk1 :=
+  match goal with
+  | |- context [chk32 ?m ?z] =>
+      let R := fresh "R" in let E := fresh "E" in
+      destruct (chk32_dec m z) as [[R E]|[R E]]; rewrite E; clear E; [| split_mode m]; cbn [bind]
+  | |- context [chk64 ?m ?z] =>
+      let R := fresh "R" in let E := fresh "E" in
+      destruct (chk64_dec m z) as [[R E]|[R E]]; rewrite E; clear E; [| split_mode m]; cbn [bind]
+  | |- context [chkT ?m ?t ?z] =>
+      let R := fresh "R" in let E := fresh "E" in
+      destruct (chkT_dec m t z) as [[R E]|[R E]]; rewrite E; clear E; [| split_mode m]; cbn [bind]
+  end.
+
+Ltac if_split :=
+  repeat match goal with
+  | |- context [if ?c then _ else _] =>
+      lazymatch type of c with bool => destruct c eqn:? end
+  end.
+
+(* strip the constructors two results share, down to the integers / booleans they carry *)
+Ltac peel :=
+  repeat match goal with
+  | |- Ok _ = Ok _ => f_equal
+  | |- ROk _ = ROk _ => f_equal
+  | |- RErr _ _ = RErr _ _ => f_equal
+  | |- RDo _ _ _ = RDo _ _ _ => f_equal
+  | |- RStruct _ = RStruct _ => f_equal
+  | |- cons _ _ = cons _ _ => f_equal
+  | |- pair _ _ = pair _ _ => f_equal
+  | |- Some _ = Some _ => f_equal
+  | |- wrap32 _ = wrap32 _ => f_equal
+  | |- wrap64 _ = wrap64 _ => f_equal
+  end.
+
+(* a proofs file may extend the simplification of leaves (interpreters of sres) with `Ltac src_simpl_hook ::= ...` *)
+Ltac src_simpl_hook := idtac.
+
+(* wrapped values are inside their type *)
+Ltac wrap_ranges :=
+  repeat match goal with
+  | |- context [wrap64 ?z] =>
+      lazymatch goal with H : in_i64 (wrap64 z) = true |- _ => fail | _ => pose proof (wrap64_range z) end
+  | |- context [wrap32 ?z] =>
+      lazymatch goal with H : in_i32 (wrap32 z) = true |- _ => fail | _ => pose proof (wrap32_range z) end
+  end.
+
+Ltac src_leaf :=
+  cbn [bind do_ qbind negb andb orb] in *; src_simpl_hook; cmp_norm; wrap_ranges;
+  repeat match goal with |- context [castT ?t ?z] => rewrite (castT_id t z) by src_lia end;
+  first [ reflexivity | exfalso; src_lia | solve [ peel; first [ reflexivity | src_lia ] ] | congruence ].
+
+Ltac src_robust :=
+  cbv zeta; srcT_unfold_ops; cbn [bind]; cmp_norm; repeat (first [ src_norm1 | srcT_norm1 ]; cbn [bind]); repeat unify_chk;
+  repeat (split_chk1; cmp_norm; repeat unify_chk); if_split; src_leaf.
